@@ -386,6 +386,10 @@ class Oracles:
                 # connection was lost AFTER the call had committed?  (The repeated call then answers delta_cores = 0.)
                 retried = sorted({p for p, a in getattr(self.w, 'ack_lost_calls', []) if name in a})
                 suffix = '/after_retried_call' if retried else ''
+                if kind == 'state' and 'activate_instance' in retried:
+                    # Instance.activate raises CallError when the re-issued activate_instance answers "not pending":
+                    # memory keeps 'pending' for an instance the database has activated (its own known finding)
+                    suffix += '/activate_instance'
                 self.fail('C10', 'memory_mirror', f'C10/in_memory_{kind}_diverged{suffix}',
                           f'[re-issued after ack loss: {retried}] ' * bool(retried) +
                           f'instance {name}: driver memory has state {m_state}, free {m_free}; database has state '
@@ -652,8 +656,22 @@ class Oracles:
             if (st == 'complete') != all_done:
                 self.fail('C06', 'completion', f'C06/batch_state_{st}_but_all_done_{all_done}',
                           f'batch {b}: state {st}, committed jobs {n}, non-terminal {live.get(k, 0)}')
-        # ---- C05 failed parents cancel children -------------------------------------------------------------
+        # ---- C05 a committed job whose parents are all terminal does not stay Pending ---------------------------
         P = self.parents
+        if 'jobs' in touched or 'batch_updates' in touched or 'job_parents' in touched:
+            par_of = {}
+            for r in P.rows():
+                par_of.setdefault((r[P.col('batch_id')], r[P.col('job_id')]), []).append(r[P.col('parent_id')])
+            for (b, j), jr in jobs_by_key.items():
+                if jr[js] != 'Pending' or (b, jr[ju]) not in committed:
+                    continue
+                ps = par_of.get((b, j), [])
+                if all((b, p) in jobs_by_key and jobs_by_key[(b, p)][js] in TERMINAL for p in ps):
+                    self.fail('C05', 'deps', 'C05/pending_although_all_parents_terminal',
+                              f'committed job {(b, j)} is Pending with n_pending_parents '
+                              f'{jr[J.col("n_pending_parents")]} although its parents {ps} are all terminal '
+                              f'(always_run={jr[J.col("always_run")]}): it can never run')
+        # ---- C05 failed parents cancel children -------------------------------------------------------------
         for r in P.rows():
             b, j, p = r[P.col('batch_id')], r[P.col('job_id')], r[P.col('parent_id')]
             child = jobs_by_key.get((b, j))
